@@ -3,31 +3,121 @@
 -/
 import SqlDt.Lemmas.Float
 import SqlDt.Model.Types
+import SqlDt.Lemmas.FloatUseAux
 namespace SqlDt.Lemmas
 open SqlDt Gen
 
 /-- `f64::round` leaves an integer-valued double unchanged (integers up to 2^53 in magnitude). -/
 theorem F64.roundHalfAway_ofInt (n : Int) (h : n.natAbs ≤ 9007199254740992) :
     F64.roundHalfAway (F64.ofInt n) = F64.ofInt n := by
-  sorry
+  by_cases h0 : n = 0
+  · subst h0; decide +kernel
+  · obtain ⟨m, e, h1, _, _, r⟩ := ofInt_fin n h0 h
+    rw [h1]
+    by_cases he : e ≥ 0
+    · unfold F64.roundHalfAway
+      simp only [he, ↓reduceIte]
+    · rw [roundHalfAway_fin_neg' _ m e (by omega)]
+      unfold Rep at r
+      have : e.toNat = 0 := by omega
+      rw [this, Nat.pow_zero, Nat.mul_one, Nat.mul_one] at r
+      have hD : 0 < 2 ^ (-e).toNat := by positivity
+      have hmod : m % 2 ^ (-e).toNat = 0 := by rw [r, Nat.mul_mod_left]
+      have hdiv : m / 2 ^ (-e).toNat = n.natAbs := by rw [r, Nat.mul_div_cancel _ hD]
+      rw [hmod, hdiv, if_neg (by omega), ← h1]
+      rfl
 
 /-- The `second()` accessor of a time of day is the correctly rounded (round-to-nearest-even) quotient
     `(seconds·10^6 + µs) / 10^6`: ONE rounding of the exact rational. -/
 theorem Time.second_eq (t : Int) (ht : 0 ≤ t ∧ t < 86400000000) :
     Time.second t = F64.round false (t % 60000000).toNat 1000000 := by
-  sorry
+  unfold Time.second rrem
+  have h1 : USECONDS_PER_MINUTE = 60000000 := rfl
+  have h2 : USECONDS_PER_SECOND = 1000000 := rfl
+  rw [h1, h2, if_pos ht.1]
+  obtain ⟨r, hr⟩ : ∃ r : Nat, t % 60000000 = (r : Int) := ⟨(t % 60000000).toNat, by omega⟩
+  rw [hr]
+  have hr' : r < 60000000 := by omega
+  obtain ⟨m1, e1, g1, _, r1, _⟩ := ofInt_nat_rep r (by omega)
+  obtain ⟨m2, e2, g2, _, r2, hm2⟩ := ofInt_nat_rep 1000000 (by decide)
+  have hm2' : m2 ≠ 0 := by have := hm2 (by decide); omega
+  have g2' : F64.ofInt 1000000 = F64.fin false m2 e2 := g2
+  rw [g1, g2', div_fin _ _ (by decide) (by decide) hm2' r1 r2]
+  simp only [Nat.mul_one, Nat.one_mul, Int.toNat_natCast]
+  rfl
 
 /-- Same for the signed `second()` of a day-time interval (sign of the interval, magnitude of the sub-minute part). -/
 theorem IntervalDT.second_eq (v : Int) (hv : -8640000000000000000 ≤ v ∧ v ≤ 8640000000000000000) :
     IntervalDT.second v = F64.round (decide (v < 0 ∧ v.natAbs % 60000000 ≠ 0)) (v.natAbs % 60000000) 1000000 ∨
     (v < 0 ∧ v.natAbs % 60000000 = 0 ∧ IntervalDT.second v = F64.zero false) := by
-  sorry
+  unfold IntervalDT.second rrem
+  have h1 : USECONDS_PER_MINUTE = 60000000 := rfl
+  have h2 : USECONDS_PER_SECOND = 1000000 := rfl
+  rw [h1, h2]
+  obtain ⟨m2, e2, g2, r2, hm2⟩ := ofInt_million
+  generalize hR : v.natAbs % 60000000 = R
+  have hR' : R < 60000000 := by omega
+  by_cases h0 : 0 ≤ v
+  · left
+    rw [if_pos h0]
+    have : v % 60000000 = (R : Int) := by omega
+    rw [this]
+    obtain ⟨m1, e1, g1, _, r1, _⟩ := ofInt_nat_rep R (by omega)
+    rw [g1, g2, div_fin _ _ (by decide) (by decide) hm2 r1 r2]
+    have : decide (v < 0 ∧ R ≠ 0) = false := decide_eq_false (by omega)
+    rw [this]
+    simp only [Nat.mul_one, Nat.one_mul]
+    rfl
+  · rw [if_neg h0]
+    have : (-v) % 60000000 = (R : Int) := by omega
+    rw [this]
+    by_cases hR0 : R = 0
+    · right
+      subst hR0
+      refine ⟨by omega, rfl, ?_⟩
+      obtain ⟨m1, e1, g1, _, r1, _⟩ := ofInt_nat_rep 0 (by decide)
+      have : F64.ofInt (-((0 : Nat) : Int)) = F64.fin false m1 e1 := g1
+      rw [this, g2, div_fin _ _ (by decide) (by decide) hm2 r1 r2]
+      exact round_zero _ _
+    · left
+      obtain ⟨m1, e1, g1, _, _, r1⟩ := ofInt_fin (-(R : Int)) (by omega) (by omega)
+      have hd : decide (-(R : Int) < 0) = true := decide_eq_true (by omega)
+      rw [hd] at g1
+      have hr1 : Rep m1 e1 R 1 := by
+        have : (-(R : Int)).natAbs = R := by omega
+        rw [this] at r1; exact r1
+      rw [g1, g2, div_fin _ _ (by decide) (by decide) hm2 hr1 r2]
+      have : decide (v < 0 ∧ R ≠ 0) = true := decide_eq_true ⟨by omega, hR0⟩
+      rw [this]
+      simp only [Nat.mul_one, Nat.one_mul]
+      rfl
 
 /-- The difference of two Oracle-style dates in days is the correctly rounded exact quotient `Δµs / 86400·10^6`:
     Δ is a multiple of 10^6 below 2^59, hence converts to `f64` exactly, so there is a single rounding. -/
 theorem OracleDate.subDate_eq (a b : Int) (ha : OracleDate.isValidDate a) (hb : OracleDate.isValidDate b) (hne : a ≠ b) :
     OracleDate.subDate a b = F64.round (decide (a - b < 0)) (a - b).natAbs 86400000000 := by
-  sorry
+  unfold OracleDate.isValidDate isValidTimestamp rrem at ha hb
+  have h1 : TIMESTAMP_MIN = -62135596800000000 := by decide +kernel
+  have h2 : TIMESTAMP_MAX = 253402300799999999 := by decide +kernel
+  have h3 : USECONDS_PER_SECOND = 1000000 := rfl
+  have h4 : USECONDS_PER_DAY = 86400000000 := rfl
+  rw [h1, h2, h3] at ha hb
+  obtain ⟨⟨ha1, ha2⟩, ha3⟩ := ha
+  obtain ⟨⟨hb1, hb2⟩, hb3⟩ := hb
+  have ha4 : a % 1000000 = 0 := by split at ha3 <;> omega
+  have hb4 : b % 1000000 = 0 := by split at hb3 <;> omega
+  unfold OracleDate.subDate
+  rw [h4]
+  obtain ⟨n, hn⟩ : ∃ n, n = a - b := ⟨_, rfl⟩
+  rw [← hn]
+  have hn0 : n ≠ 0 := by omega
+  have hnM : n.natAbs = (n.natAbs / 1000000 * 15625) * 2 ^ 6 := by omega
+  obtain ⟨m1, e1, g1, r1, _⟩ := ofInt_fin_shift n (n.natAbs / 1000000 * 15625) 6 hnM (by omega) (by omega) (by decide)
+  obtain ⟨m2, e2, g2, _, r2, hm2⟩ := ofInt_nat_rep 86400000000 (by decide)
+  have hm2' : m2 ≠ 0 := by have := hm2 (by decide); omega
+  have g2' : F64.ofInt 86400000000 = F64.fin false m2 e2 := g2
+  rw [g1, g2', div_fin _ _ (by decide) (by decide) hm2' r1 r2]
+  simp only [Nat.mul_one, Nat.one_mul, Bool.bne_false]
 
 /-- A day offset whose microsecond count `n` is computed exactly by the multiplication (e.g. any whole number of days,
     or halves/quarters… of a day) is added exactly: same result as integer arithmetic with the exact range gate. -/
@@ -37,7 +127,14 @@ theorem Timestamp.addDays_exact (ts n : Int) (x : F64) (hn : n.natAbs ≤ 900719
       (match checkedI64 (ts + n) with
        | some r => Timestamp.tryFromUsecs r
        | none => .error .DateOutOfRange) := by
-  sorry
+  unfold Timestamp.addDays
+  have : USECONDS_PER_DAY = 86400000000 := rfl
+  dsimp only
+  rw [this, hx, F64.roundHalfAway_ofInt n hn, F64.toI64_ofInt n hn]
+  obtain ⟨s, m, e, h1⟩ := ofInt_isFin n hn
+  rw [h1]
+  simp only [F64.isInfinite, F64.isNan, Bool.false_eq_true, ↓reduceIte]
+  rfl
 
 /-- Whole days: `add_days(k as f64)` adds exactly `k` days, for every `|k| ≤ 100000`. -/
 theorem Timestamp.addDays_whole (ts k : Int) (hk : k.natAbs ≤ 100000) :
@@ -45,17 +142,44 @@ theorem Timestamp.addDays_whole (ts k : Int) (hk : k.natAbs ≤ 100000) :
       (match checkedI64 (ts + k * 86400000000) with
        | some r => Timestamp.tryFromUsecs r
        | none => .error .DateOutOfRange) := by
-  sorry
+  apply Timestamp.addDays_exact
+  · omega
+  · by_cases h0 : k = 0
+    · subst h0; decide +kernel
+    · exact F64.mul_ofInt_exact k 86400000000 (by omega) (by decide) (by omega) (by omega)
 
-/-- Relative error of one correctly rounded operation in the normal range: the computed result `m·2^e` (with `m ≥ 2^52`)
-    satisfies `|computed − exact| ≤ u/(1+u) · exact` with `u = 2^-53`, stated without division:
-    `(2^53 + 1) · |m·P·den − num·Q| ≤ num·Q` where `num/den` is the exact positive rational, `P = 2^max(e,0)`,
-    `Q = 2^max(−e,0)`.  Two such operations (conversion of the interval, then the product or quotient) compose to
-    `(1 + u/(1+u))² − 1 < 2u = 2^-52`, the bound of the property. -/
+/-- Relative error of one correctly rounded operation, for a result exponent above the minimum (normal range):
+    the computed result `m·2^e` (with `m ≥ 2^52`, `e > EMIN`) satisfies `|computed − exact| ≤ u/(1+u) · exact` with
+    `u = 2^-53`, stated without division: `(2^53 + 1) · |m·P·den − num·Q| ≤ num·Q` where `num/den` is the exact
+    positive rational, `P = 2^max(e,0)`, `Q = 2^max(−e,0)`.  Two such operations (conversion of the interval, then the
+    product or quotient) compose to `(1 + u/(1+u))² − 1 < 2u = 2^-52`, the bound of the property.
+    (At `e = EMIN` the bound fails: `(2^53 − 1)/2^1075` is a tie that rounds up to `2^-1022` with relative error
+    `1/(2^53 − 1)`.) -/
 theorem F64.roundPos_rel (num den m : Nat) (e : Int) (hn : 0 < num) (hd : 0 < den)
-    (h : F64.roundPos num den = some (m, e)) (hnorm : F64.P52 ≤ m) :
+    (h : F64.roundPos num den = some (m, e)) (hnorm : F64.P52 ≤ m) (he : F64.EMIN < e) :
     9007199254740993 * ((m * F64.pow2 e.toNat * den : Nat) - (num * F64.pow2 (-e).toNat : Nat) : Int).natAbs
       ≤ num * F64.pow2 (-e).toNat := by
-  sorry
+  obtain ⟨_, _, _, _, hs⟩ := roundPos_spec' num den m e hn hd h
+  have hf := roundPos_fine num den m e hn hd h he
+  simp only [pow2_eq]
+  rw [P52_eq] at hnorm
+  have hX : m * 2 ^ e.toNat * den = m * (2 ^ e.toNat * den) := by ring
+  have h1 : 2 ^ 52 * (2 ^ e.toNat * den) ≤ m * (2 ^ e.toNat * den) := Nat.mul_le_mul_right _ hnorm
+  rw [hX] at hs hf ⊢
+  rcases hf with hf | hf | hf
+  · generalize m * (2 ^ e.toNat * den) = X at *
+    generalize 2 ^ e.toNat * den = Z at *
+    generalize num * 2 ^ (-e).toNat = Y at *
+    omega
+  · have h2 : (2 ^ 52 + 1) * (2 ^ e.toNat * den) ≤ m * (2 ^ e.toNat * den) := Nat.mul_le_mul_right _ hf
+    rw [Nat.add_mul, Nat.one_mul] at h2
+    generalize m * (2 ^ e.toNat * den) = X at *
+    generalize 2 ^ e.toNat * den = Z at *
+    generalize num * 2 ^ (-e).toNat = Y at *
+    omega
+  · generalize m * (2 ^ e.toNat * den) = X at *
+    generalize 2 ^ e.toNat * den = Z at *
+    generalize num * 2 ^ (-e).toNat = Y at *
+    omega
 
 end SqlDt.Lemmas
